@@ -662,3 +662,62 @@ func vh_C05_tree_glob() {
 	vAssert(vTSrv.equal(ref), "Glob changes nothing")
 	vAssert(vTHandlesClosed(), "every directory handle is closed again")
 }
+
+// Walk: the walker visits exactly what filepath.Walk visits on an identical
+// tree - the root, then every entry below it, directories before their
+// contents, symbolic links reported but not followed - each directory in the
+// order the server lists it (the model lists in lexical order, which makes
+// this filepath.Walk's order; a real directory is listed in directory order).
+func (t *vTree) osWalk(root string, out []string) []string {
+	k, e := t.stat(root, false)
+	if e != vEOK {
+		return out
+	}
+	n, _ := t.resolve(root, false)
+	out = append(out, n)
+	if k == vKDir {
+		c := t.children(n)
+		vSortStrings(c)
+		for _, ch := range c {
+			out = t.osWalk(ch, out)
+		}
+	}
+	return out
+}
+
+//verif:samples 40
+func vh_C05_tree_walk() {
+	c, ref := vTSetup()
+	defer vPeerDone(c)
+	root := []string{"/", "/a", "/e", "/l", "/q"}[vChoice(5)]
+	vTArg = root
+	w := c.Walk(root)
+	var got []string
+	nerr := 0
+	for w.Step() {
+		if w.Err() != nil {
+			nerr++
+			continue
+		}
+		got = append(got, w.Path())
+		vAssert(len(got) < 20, "the walk terminates")
+	}
+	_, e := ref.stat(root, false)
+	if e != vEOK {
+		vAssert(len(got) == 0 && nerr == 1, "Walk: a missing root is reported once, nothing is visited")
+	} else {
+		want := ref.osWalk(root, nil)
+		if root == "/l" {
+			want = []string{"/l"} // the link itself, spelled as given
+		}
+		vAssert(nerr == 0, "Walk: no error on a readable tree")
+		vAssert(len(got) == len(want), "Walk: visits as many entries as filepath.Walk")
+		if len(got) == len(want) {
+			for i := range got {
+				vAssert(got[i] == want[i], "Walk: the same entries in the same order as filepath.Walk")
+			}
+		}
+	}
+	vAssert(vTSrv.equal(ref), "Walk changes nothing")
+	vAssert(vTHandlesClosed(), "every directory handle is closed again")
+}
